@@ -151,6 +151,15 @@ func (dsp *DataStreamProcessor) ConfigureTrigger(state TriggerState) error {
 
 func (dsp *DataStreamProcessor) processSegment(segment *DataSegment) {
 	dsp.DecimateData(segment)
+	if n := len(dsp.stream.rawData); n > 0 &&
+		segment.firstFrameIndex != dsp.stream.firstFrameIndex+FrameIndex(n*dsp.stream.framesPerSample) {
+		// The source lost data: this segment does not continue the frame numbering of the samples still
+		// held. They cannot be joined to it (AppendSegment would renumber them, and trigger state that
+		// is kept as frame numbers would point at the wrong samples, even before the start of the
+		// buffer), so start over with the new segment.
+		dsp.stream.TrimKeepingN(0)
+		dsp.EMTState.reset()
+	}
 	dsp.stream.AppendSegment(segment)
 	primaryRecords := dsp.TriggerData()
 	dsp.AnalyzeData(primaryRecords)                                       // add analysis results to records in-place
